@@ -131,4 +131,29 @@ def ops : List (String × Op) := [
   ("di2c", ivOp okDI2C)
 ]
 
+/-- unknown op ↦ `n/a` (as `Driver.runSpec`) -/
+def answer (line : String) : String :=
+  let r := runOp ops (line.trimRight)
+  if r.startsWith "bad-op" then "n/a" else r
+
+/-- lines are independent: answered on all cores -/
+def main : IO Unit := do
+  let stdin ← IO.getStdin
+  let stdout ← IO.getStdout
+  let mut lines : Array String := #[]
+  repeat
+    let line ← stdin.getLine
+    if line.isEmpty then break
+    lines := lines.push line
+  let n := lines.size
+  let nchunks := 64
+  let size := (n + nchunks - 1) / nchunks
+  let tasks := (List.range nchunks).map fun c =>
+    Task.spawn fun _ =>
+      let sub := lines.extract (c * size) (min n ((c + 1) * size))
+      "\n".intercalate (sub.map answer).toList
+  for t in tasks do
+    let s := t.get
+    if !s.isEmpty then stdout.putStrLn s
+
 end BioCantor.Driver.SpecTranscript
